@@ -212,7 +212,7 @@ func menuFor(c Case) []Query {
 	}
 	key := "1" + c.Schema
 	if twoFam {
-		key = "2"
+		key = "2" + c.Schema
 	}
 	if twoSeries {
 		key += "s"
